@@ -155,6 +155,70 @@ def model_canon(mrounds, rcpts):
     return out, final
 
 
+def failure_result(case, h, final, props):
+    """A storage operation failed once in the middle of the history. What happens to the message then is not the model's business
+    (the task that met the failure dies; the message waits for a restart). What must still hold: a recipient the relay has settled
+    is in no later attempt, a bounce names only recipients that failed with its reply, and no failure is bounced twice."""
+    hits = []
+    script = [queuedrv.parse_outcome(o) for o in case['outcomes']]
+    settled_ok, settled = set(), set()
+    failed_with = {}            # recipient -> reply id of its permanent failure
+    for k, rc, att in h.attempts:
+        again = settled & set(rc)
+        if again and 'C03' in props:
+            hits.append(hit('c03.settled-recipient-reattempted.' + case['backend'] + '.after-storage-failure',
+                            'after a storage operation failed, a recipient already delivered or permanently failed is attempted again',
+                            observed={'round': k, 'recipients': rc, 'settled': sorted(settled), 'injected': case['store_fail']}))
+            break
+        o = script[k] if k < len(script) else None
+        if o is None:
+            break
+        if o[0] == 'S':
+            settled_ok |= set(rc); settled |= set(rc)
+        elif o[0] == 'P':
+            settled |= set(rc)
+            for r in rc:
+                failed_with[r] = o[1]
+        elif o[0] == 'M':
+            for r, v in o[1]:
+                if r in rc and v[0] in 'op':
+                    settled.add(r)
+                    if v[0] == 'o':
+                        settled_ok.add(r)
+                    else:
+                        failed_with[r] = int(v[1:])
+        elif o[0] == 'Q':
+            for r, v in zip(rc, o[1]):
+                if v[0] in 'op':
+                    settled.add(r)
+                    if v[0] == 'o':
+                        settled_ok.add(r)
+                    else:
+                        failed_with[r] = int(v[1:])
+    if 'C13' in props or 'C01' in props:
+        which = 'c13' if 'C13' in props else 'c01'
+        seen = set()
+        for b in h.bounces:
+            if b['obj'] is None:
+                continue
+            for r in b['rcpts']:
+                if r in settled_ok:
+                    hits.append(hit(which + '.bounce-names-delivered-recipient.after-storage-failure',
+                                    'after a storage operation failed, a bounce names a recipient the relay had delivered to',
+                                    observed={'bounce': (b['reply'], b['rcpts'], b['too_many']), 'delivered': sorted(settled_ok), 'injected': case['store_fail']}))
+                    break
+                if (r, b['too_many']) in seen and not b['too_many']:
+                    hits.append(hit(which + '.failure-bounced-twice.after-storage-failure', 'after a storage operation failed, one failure was bounced twice',
+                                    observed={'recipient': r, 'bounces': [(x['reply'], x['rcpts']) for x in h.bounces if x['obj'] is not None][:6]}))
+                    break
+                seen.add((r, b['too_many']))
+            if hits:
+                break
+    tags = [case['backend'], 'storage-failure', 'fail-' + case['store_fail'][0], 'final=' + final[0]]
+    key = (case['backend'], tuple(case['outcomes']), tuple(case['store_fail']), tuple(case['rcpts']))
+    return CaseResult(None, hits, key, tags)
+
+
 def run_case(case, model, props):
     """props: which property monitors to apply ('C01', 'C03', 'C13')."""
     be = Backend(case['backend'])
@@ -164,11 +228,14 @@ def run_case(case, model, props):
     try:
         h, final = queuedrv.run_history(be, sender, case['factory'], case['backoff'], case['rcpts'], case['outcomes'],
                                         store_pool=pools[0], relay_pool=pools[1], headers_only=case.get('headers_only', False),
-                                        expect_rounds=len(mrounds))
+                                        expect_rounds=len(mrounds), store_fail=case.get('store_fail'),
+                                        timeout=1.0 if case.get('store_fail') else 2.5)
     finally:
         be.close()
     hits = []
     mismatch = None
+    if case.get('store_fail'):
+        return failure_result(case, h, final, props)
     if final[0] in ('hung', 'error'):
         # the queue stopped moving (or the driver failed): nothing to compare; a stall is C01/C12's business
         tags = [case['backend'], 'final=' + final[0], 'pools=%s' % (pools,)]
